@@ -126,7 +126,8 @@ class HResult(QsysShot):
 
 def _cast_primitive_bit(data: DataValue) -> BitChar:
     if isinstance(data, int) and data in {0, 1}:
-        return str(data)  # type: ignore[return-value]
+        # bools are ints: render True/False as "1"/"0" too
+        return str(int(data))  # type: ignore[return-value]
     msg = f"Expected bit data for register value found {data}"
     raise ValueError(msg)
 
